@@ -247,6 +247,53 @@ func main() {
 				effect[string(k)] = string(v)
 			}
 		})
+		// the same transaction followed, in one block, by an independent successful transaction of another
+		// account (free, writes one storage key of its own): whatever the first one leaves behind in the
+		// shared per-block transaction cache would be published by the follower's commit.  The pair's effect
+		// must be exactly the union of the two single effects.
+		if i%3 == 0 {
+			fm := w.TB.Invoke(0, 30000, chain.KVInvoke(w.KV, []byte("follower-key"), []byte{byte(i), byte(i >> 8), 1}, true))
+			chain.Sign(fm, w.Accts[4])
+			ftx := chain.Immutable(fm)
+			fb, _ := c.MakeBlock([]*types.Transaction{ftx}, 0)
+			fres, ferr := c.Ledger.ExecuteBlock(fb)
+			pb, _ := c.MakeBlock([]*types.Transaction{tx, ftx}, 0)
+			pres, perr := c.Ledger.ExecuteBlock(pb)
+			if ferr == nil && perr == nil && fres.Notify[0].State == event.CONTRACT_STATE_SUCCESS {
+				want := map[string]string{}
+				for k, v := range effect {
+					want[k] = v
+				}
+				fres.WriteSet.ForEach(func(k, v []byte) {
+					if dump[string(k)] != string(v) {
+						want[string(k)] = string(v)
+					}
+				})
+				got := map[string]string{}
+				pres.WriteSet.ForEach(func(k, v []byte) {
+					if dump[string(k)] != string(v) {
+						got[string(k)] = string(v)
+					}
+				})
+				same := len(got) == len(want)
+				for k, v := range want {
+					if got[k] != v {
+						same = false
+					}
+				}
+				r.Count("pair_with_follower_compared")
+				if n.State != event.CONTRACT_STATE_SUCCESS {
+					r.Count("failed_tx_followed_by_committing_tx")
+				}
+				if !same {
+					cls := "success-first"
+					if n.State != event.CONTRACT_STATE_SUCCESS {
+						cls = "failed-first"
+					}
+					r.Violation("effect-leaks-into-later-tx-of-block:"+cls+":"+kind, fmt.Sprintf("block [tx, follower] changes %d keys, the two transactions alone change %d", len(got), len(want)), id)
+				}
+			}
+		}
 		pk, gk := ongKey(payer.Address), ongKey(gov)
 		balAfter, govAfter := balBefore, govBefore
 		if v, ok := effect[pk]; ok {
@@ -341,6 +388,7 @@ func main() {
 	}
 	r.Require("outcome/success/success:put", 5)
 	r.Require("fee_charged_on_failure", 50)
+	r.Require("failed_tx_followed_by_committing_tx", 100)
 	r.Require("no_fee_on_failure", 20)
 	r.Require("failed_and_charged_path", 50)
 	r.Require("success_and_charged_path", 20)
